@@ -17,7 +17,7 @@ from .common import (P, box, check_defined, evalf, load_sym, model_floats, not_c
 from .c08 import load_fluid_with_ufs
 
 
-def replay_facade(model, method="oil_FVF", reassigned=False):
+def replay_facade(model, method="oil_FVF", reassigned=False, container="array"):
     import numpy as np
     from bluebonnet.fluids import Fluid
     from bluebonnet.fluids import gas, oil, water
@@ -41,11 +41,22 @@ def replay_facade(model, method="oil_FVF", reassigned=False):
     if method == "pressure_bubblepoint":
         got, want = f.pressure_bubblepoint(), oil.pressure_bubblepoint_Standing(m["T"], m["api"], m["gg"], m["rsi"])
         return abs(got - want) > 1e-12 * abs(want), {"what": f"Fluid.pressure_bubblepoint {got!r} vs stand-alone {want!r}", "inputs": m}
-    args = (p, m["Tpc"], m["ppc"]) if method.startswith("gas") else (p,)
-    got = np.asarray(getattr(f, method)(*args), float)
+    if container == "series":
+        # the pressure column of a table whose rows were re-ordered (index labels 1, 0 in row order)
+        import pandas as pd
+        p_in = pd.Series(p, index=[1, 0])
+    elif container == "list":
+        p_in = p.tolist()
+    else:
+        p_in = p
+    args = (p_in, m["Tpc"], m["ppc"]) if method.startswith("gas") else (p_in,)
+    try:
+        got = np.asarray(getattr(f, method)(*args), float)
+    except Exception as ex:  # noqa: BLE001
+        return True, {"what": f"Fluid.{method} raised {ex!r} on a {container} of pressures", "inputs": m}
     want = np.array([float(ref[method](q)) for q in p])
     bad = got.shape != want.shape or bool(np.any(np.abs(got - want) > 1e-12 * np.abs(want)))
-    return bad, {"what": f"Fluid.{method} = {got.tolist()} vs stand-alone correlation {want.tolist()}", "inputs": m}
+    return bad, {"what": f"Fluid.{method} ({container} of pressures {p.tolist()}) = {got.tolist()} vs stand-alone correlation {want.tolist()}", "inputs": m}
 
 
 def replay_sutton(model, case="no contaminants", fluid="dry gas"):
@@ -62,6 +73,46 @@ def replay_sutton(model, case="no contaminants", fluid="dry gas"):
     b = gas.pseudocritical_point_Sutton(m["sg"], gas.make_nonhydrocarbon_properties(m["N2"], m["H2S"], m["CO2"], ("Helium", 0.0, 4.0, 9.4, 33.0)), fluid)
     bad = any(abs(x - y) > 1e-9 * abs(x) for x, y in zip(a, b))
     return bad, {"what": f"zero-fraction extra component changes the pseudocritical point: {a!r} vs {b!r}", "inputs": m}
+
+
+def _container_obligations(job, f, vs, dom, want, p, names=None):
+    # the same through other containers of pressures: a pandas Series whose index labels are not 0..n-1 in row order (a
+    # column of a re-ordered table; positions, not labels, pair pressures with results) and a plain list
+    from ..shims import pd_shim
+    for cont, mk in (("series", lambda: pd_shim.SymSeries([vs["p0"], vs["p1"]], "f8", [1, 0])),):
+        for name, (args, ref) in want.items():
+            if names is not None and name not in names:
+                continue
+            def run_c():
+                return getattr(f, name)(mk(), *args[1:])
+            rp = (replay_facade, {"method": name, "container": cont})
+            for k, pr in enumerate(paths(job, run_c, dom)):
+                if pr.exc is not None:
+                    job.prove(f"facade/{name}[{cont}] raises[path{k}]", pr.pc, bound="2 pressures", replay=rp, note=repr(pr.exc)[:80])
+                    continue
+                got = pr.value
+                if not isinstance(got, SymArray) or len(got) != 2:
+                    job.errors.append(f"facade/{name}[{cont}]: result is not a length-2 array")
+                    continue
+                job.prove(f"facade/{name}[{cont} of pressures, labels 1,0]==stand-alone correlation element-wise by position[path{k}]",
+                          pr.pc + [T.b_or(*[not_close(got.d[j], ref(p.d[j]), abs_tol=Fraction(0)) for j in range(2)])], bound="2 pressures", replay=rp)
+
+
+def job_facade_gas(job):
+    """The gas methods of the facade on a re-ordered pressure column (used by C07: density / FVF / viscosity consistency
+    is stated for the values the caller gets back, position by position)."""
+    mod, gas, ufs = load_fluid_with_ufs()
+    job.encoded(mod, "Fluid.gas_FVF", "Fluid.gas_viscosity")
+    job.stub("stand-alone gas correlations imported by fluid.py: uninterpreted recording functions of their arguments")
+    vs, dom = box(None, T=(60, 400), api=(10, 60), gg=("0.5", "1.5"), rsi=(0, 3000), S=(0, 25), Swi=(0, 1), p0=(15, 20000), p1=(15, 20000),
+                  Tpc=(-200, 100), ppc=(200, 1500))
+    f = mod.Fluid(vs["T"], vs["api"], vs["gg"], vs["rsi"], vs["S"], vs["Swi"])
+    p = SymArray([vs["p0"], vs["p1"]], "f8")
+    T_, gg = vs["T"], vs["gg"]
+    want = {"gas_FVF": ((p, vs["Tpc"], vs["ppc"]), lambda q: ufs["b_factor_DAK"](T_, q, vs["Tpc"], vs["ppc"])),
+            "gas_viscosity": ((p, vs["Tpc"], vs["ppc"]), lambda q: ufs["viscosity_Sutton"](T_, q, vs["Tpc"], vs["ppc"], gg))}
+    _container_obligations(job, f, vs, dom, want, p)
+    job.prove("facade-gas/reach", dom, expect="sat")
 
 
 def job_facade(job):
@@ -95,6 +146,7 @@ def job_facade(job):
             job.prove(f"facade/{name}==stand-alone correlation element-wise[path{k}]",
                       pr.pc + [T.b_or(*[not_close(got.d[j], ref(p.d[j]), abs_tol=Fraction(0)) for j in range(2)])], bound="2 pressures",
                       replay=(replay_facade, {"method": name}))
+    _container_obligations(job, f, vs, dom, want, p)
     # the facade answers for the object's CURRENT attributes: an object built for one fluid whose public attributes are then
     # reassigned must answer for the new values (nothing frozen at construction time)
     old_vals = {k_: fresh(f"old_{k_}", pos=True) for k_ in ("T", "api", "gg", "rsi", "S")}
